@@ -48,8 +48,12 @@ Lemma tree_fuel_insufficient :
   total_demand cex_pb <= total_capacity cex_pb /\
   ssp cex_pb = Fail (EFuel 483) /\
   sspF big_fuel cex_pb =
-    Ok (map (fun j => map (fun i => if (j + i =? 11)%nat then 1 else 0) (seq 0 11)) (seq 0 12)).
+    Ok (map (fun j => map (fun i => if (j + i =? 11)%nat then 1 else 0) (seq 0 11)) (seq 0 12)) /\
+  tree_fuel (nsnk cex_pb) = 1753%positive /\
+  sspF (fun _ => 2048%positive) cex_pb = Fail (EFuel 483) /\
+  sspF (fun _ => 2049%positive) cex_pb = sspF big_fuel cex_pb.
 Proof.
   split; [vm_compute; reflexivity|]. split; [apply costs_in_range_sound; vm_compute; reflexivity|].
-  split; [vm_compute; discriminate|]. split; vm_compute; reflexivity.
+  split; [vm_compute; discriminate|]. split; [vm_compute; reflexivity|]. split; [vm_compute; reflexivity|].
+  split; [vm_compute; reflexivity|]. split; vm_compute; reflexivity.
 Qed.
